@@ -6,6 +6,7 @@ into atoms, and the exact model set (truth table) is compared with the set of
 combinatorial objects enumerated by an independent reference written from the
 documentation.  Beyond the variable cap objects and near misses are sampled.
 """
+import collections
 import itertools
 
 from .. import tt
@@ -553,6 +554,9 @@ def workload(tier, seed):
                 (2, 257), (2, 513), (2, 1025), (2, 2049), (3, 600), (3, 1030), (2, 4097), (2, 40000), (2, 65536), (2, 65537),
                 (2, 65539), (3, 70001), (2, 131073), (2, 262145)):
             yield "bphp_wide", {"cls": cls, "m": m_, "n": n_}
+        for pos in FAR_APART if not quick else FAR_APART[:5]:
+            for rep in range(1 if quick else 4):
+                yield "far_apart", {"cls": cls, "pos": pos, "nmasks": 5 if quick else 12, "rseed": seed * 10 + rep}
         for i in range(2 if quick else 16):
             yield "history", {"cls": cls, "rseed": seed * 100 + i}
             yield "sampled", {"cls": cls, "rseed": seed * 100 + i}
@@ -749,6 +753,87 @@ def case_sampled2(ctx, cls, rseed):
                         load[e[1]] += 1
                 pool += perturb(r, t, x.values(), 2)
             sampled_compare(ctx, "subsetcard", desc, F, pool, preds, ("subsetcard-large", L, R, tuple(E), eq, cls))
+
+
+FAR_APART = [(1, 2, 65537), (1, 65537, 65538), (2, 65538, 131074), (1, 257, 513), (5, 65541, 131077), (3, 4099, 1048579)]
+
+
+def case_far_apart(ctx, cls, pos, nmasks, rseed):
+    """Few edges between vertices whose indices are far apart: every edge set on 3 x 3 vertices, the three vertices
+    of a side sitting at the positions `pos` of a long side (all the others isolated).  The objects are the ones
+    of the small graph; an index arithmetic that folds two far-apart vertices onto each other changes them."""
+    from cnfgen.graphs import BipartiteGraph
+    tt.selfcheck()
+    K = S.formula_classes()[cls]
+    g = gens()
+    r = ctx.rng("c01far", cls, pos, rseed)
+    masks = sorted({r.getrandbits(9) for _ in range(nmasks)} | {0b111111111, 0b100010001, 0b001010100})
+    for mask in masks:
+        small = [(a, b) for a in range(3) for b in range(3) if (mask >> (3 * a + b)) & 1]
+        # ---- pigeons 1..3, holes far apart
+        E = sorted((a + 1, pos[b]) for a, b in small)
+        R = pos[-1] + r.choice((0, 0, 1, 3))
+        B = BipartiteGraph(3, R)
+        for e in r.sample(E, len(E)):
+            B.add_edge(*e)
+        for functional in (False, True):
+            desc = "GraphPigeonholePrinciple(B(3,%d,%r),functional=%s)[%s]" % (R, E, functional, cls)
+            F, exc = S.build(ctx, "gphp", desc, g.GraphPigeonholePrinciple, B, functional=functional, formula_class=K)
+            if F is None:
+                raised(ctx, "gphp", desc, exc)
+                continue
+            ctx.count("far_apart_graphs")
+            at = S.decode(ctx, "gphp", desc, F)
+            if at is None:
+                continue
+            p = at.get("p_{#,#}", {})
+            if set(p) != set(E):
+                ctx.violation("gphp:atoms", "%s: variables %r do not name the edges" % (desc, sorted(p)))
+                continue
+            objs = []
+            for k in range(len(E) + 1):
+                for sub in itertools.combinations(E, k):
+                    rows = collections.Counter(u for u, _ in sub)
+                    cols = collections.Counter(v for _, v in sub)
+                    if all(rows[u] >= 1 for u in (1, 2, 3)) and all(c <= 1 for c in cols.values()) and \
+                            (not functional or all(rows[u] == 1 for u in (1, 2, 3))):
+                        objs.append([p[e] for e in sub])
+            S.check_models(ctx, "gphp", desc, F, objs, ("gphp-far", pos, R, mask, functional, cls), nontrivial=len(E) > 0)
+        # ---- subset cardinality, both sides far apart
+        lpos = r.choice(FAR_APART[:5])
+        E = sorted((lpos[a], pos[b]) for a, b in small)
+        L, R = lpos[-1] + r.choice((0, 2)), pos[-1] + r.choice((0, 1))
+        if max(L, R) > 200000:
+            L = lpos[-1]
+        B = BipartiteGraph(L, R)
+        for e in r.sample(E, len(E)):
+            B.add_edge(*e)
+        for eq in (False, True):
+            desc = "SubsetCardinalityFormula(B(%d,%d,%r),equalities=%s)[%s]" % (L, R, E, eq, cls)
+            F, exc = S.build(ctx, "subsetcard", desc, g.SubsetCardinalityFormula, B, equalities=eq, formula_class=K)
+            if F is None:
+                raised(ctx, "subsetcard", desc, exc)
+                continue
+            ctx.count("far_apart_graphs")
+            at = S.decode(ctx, "subsetcard", desc, F)
+            if at is None:
+                continue
+            x = at.get("x_{#,#}", {})
+            if set(x) != set(E):
+                ctx.violation("subsetcard:atoms", "%s: variables %r do not name the edges" % (desc, sorted(x)))
+                continue
+            du = collections.Counter(u for u, _ in E)
+            dv = collections.Counter(v for _, v in E)
+            objs = []
+            for k in range(len(E) + 1):
+                for sub in itertools.combinations(E, k):
+                    su = collections.Counter(u for u, _ in sub)
+                    sv = collections.Counter(v for _, v in sub)
+                    if all(((su[u] == (d + 1) // 2) if eq else (2 * su[u] >= d)) for u, d in du.items()) and \
+                            all(((sv[v] == d // 2) if eq else (2 * sv[v] <= d)) for v, d in dv.items()):
+                        objs.append([x[e] for e in sub])
+            S.check_models(ctx, "subsetcard", desc, F, objs, ("subsetcard-far", lpos, pos, L, R, mask, eq, cls),
+                           nontrivial=len(E) > 0)
 
 
 def case_history(ctx, cls, rseed):
